@@ -131,6 +131,7 @@ func runC11(c *core.Ctx) {
 	runR112(c)
 	// ---- R11.3
 	parserReturnPairs(c, "R11.3")
+	c.Share(map[string]string{"R14.13": "R11.9"}, runC14) // a backend connection dropped because of one client's input (over-long key) must not poison the shared header pool
 	c.Share(map[string]string{"R12.1": "R11.7"}, runC12) // a panic provoked by one client's input must not leave a key locked for the others
 	c.Rule("R11.8", "a ring lookup in cluster mode stays inside the ring (shared with C19): an index one past the end panics on the goroutine of a multi-key get and ends the process for every connection", 1)
 	runR199(c, "R11.8")
